@@ -37,6 +37,8 @@ def _rows(X):
     src = X.read(AST)
     cut = src.find("#[cfg(test)]")
     body = src if cut < 0 else src[:cut]
+    # comments are blanked (same length, so line numbers stay): a word in a comment is not a use of the variable
+    body = re.sub(r"//[^\n]*", lambda mm: " " * len(mm.group(0)), body)
     rows = []
     for what, pat in SITES:
         occ = [m.start() for m in re.finditer(pat, body)]
